@@ -28,7 +28,7 @@ Proof.
   set (v' := set_queued (v_queued v + vet) v).
   strip (rl_add a (setv a v' (pay_in (vet * e18) s))).
   apply (Inv2_rl_add _ a v'); [|apply getv_setv_same|exact G3].
-  apply (Inv2_setv _ a v); auto; try reflexivity; try lia.
+  apply (Inv2_setv _ a v); auto; try reflexivity; try lia; try (intros _; split; reflexivity).
   - apply Inv2_pay_in; auto.
   - intros E. rewrite G3 in E. discriminate.
   - intros E. apply (j_w1 _ HI a v Hv E).
@@ -43,6 +43,7 @@ Proof.
   set (v' := set_punlock (v_punlock v + vet) v).
   apply (Inv2_rl_add _ a v'); [|apply getv_setv_same|exact G3].
   apply (Inv2_setv _ a v); auto; try reflexivity; try lia.
+  { intros E. rewrite G3 in E. discriminate. }
   intros E. destruct (j_w1 _ HI a v Hv E) as [_ P]. pose proof (sub64_le (v_locked v) (v_punlock v)).
     apply negb_true_iff, N.ltb_ge in G5, G6. unfold MinStakeVET in G6. cbn [v' set_punlock set_amounts v_punlock]. lia.
 Qed.
@@ -70,14 +71,14 @@ Qed.
 Lemma set_online_inv2 a on s s' x : set_online a on s = Ok (s', x) -> Inv2 s -> Inv2 s'.
 Proof.
   intros H HI. unfold set_online in H. bstep H v Hv. unfold get_existing in Hv. apply of_opt_ok in Hv.
-  inversion H; subst s' x; clear H. apply (Inv2_setv _ a v); auto; try reflexivity; try lia.
+  inversion H; subst s' x; clear H. apply (Inv2_setv _ a v); auto; try reflexivity; try lia; try (intros _; split; reflexivity).
   intros E. apply (j_w1 _ HI a v Hv E).
 Qed.
 
 Lemma set_beneficiary_inv2 a e b s s' x : set_beneficiary a e b s = Ok (s', x) -> Inv2 s -> Inv2 s'.
 Proof.
   intros H HI. unfold set_beneficiary in H. bstep H v Hv. apply get_or_revert_ok in Hv.
-  bstep H u1 G1. bstep H u2 G2. inversion H; subst s' x; clear H. apply (Inv2_setv _ a v); auto; try reflexivity; try lia.
+  bstep H u1 G1. bstep H u2 G2. inversion H; subst s' x; clear H. apply (Inv2_setv _ a v); auto; try reflexivity; try lia; try (intros _; split; reflexivity).
   intros E. apply (j_w1 _ HI a v Hv E).
 Qed.
 
@@ -256,7 +257,7 @@ Proof.
       * apply (RWF_ext s _ lr); auto; rewrite ?E4, ?E5, ?E6, ?E7; cbn; rewrite <- ?(Eg _ rh), <- ?(Eg _ rt), <- ?(Eg _ rprev), <- ?(Eg _ rnext); reflexivity.
       * intros b Hb'. destruct (A b Hb') as [y [Hy Hs]]. split; [intros ->; assert (y = v) by congruence; subst y; rewrite Est in Hs; discriminate|eauto].
   - inversion Hr; subst sa wd q cd; clear Hr. inversion Hb; subst sb; clear Hb.
-    apply (Inv2_setv _ a v); auto; try reflexivity.
+    apply (Inv2_setv _ a v); auto; try reflexivity; try (intros _; split; reflexivity).
     + cbn. destruct (cooldown_ended c v (blk s)); lia.
     + intros E. rewrite E in Est. discriminate.
     + intros E. apply (j_w1 _ HI a v Hv E).
